@@ -68,6 +68,10 @@ CHECKS["C20"] = dict(engine="X", technique=X + "; git replaced by a contract mod
                      text="Bounded symbolic model checking of tmp_worktree and load_git with subprocess/TemporaryDirectory/load replaced by nondeterministic stubs: a contract model of `git worktree add/remove/prune` and `git branch -D`, a fake file system, and a load that returns or raises (LoadingError, SyntaxError, extension error, KeyboardInterrupt, ImportError) and may leave files in the checkout; the ref is a symbolic string (slashes, dots, dashes), the fault schedule one solver-chosen integer. Branch set, worktree list and temporary directories must be identical before and after; errors propagate unchanged. Counterexamples are replayed with real git in a scratch repository and the real load_git in a child interpreter with byte-code writing enabled.",
                      note="Trusted: the git contract model (documented behaviour only); HEAD/index/working-tree are untouched by construction of the commands used and are compared only in the real-git replay.")
 
+CHECKS["C03"] = dict(engine="X+S", technique=S + " (lambda marker machine); " + X + " (parse_strings decision; solver-driven case analysis of node shapes with CPython's parser as oracle)", design="§4 C03",
+                     text="REDUCED CLAIM. (1) lambda_markers: ExprLambda.iterate is interpreted from its current source over parameter lists (<= 3, thorough 4) whose kinds are z3 values constrained to valid signatures; on each feasible path the yielded text is concrete, CPython's parser reads it back and one solver query decides that no kind vector following that path differs from what was parsed. (2) string_annotations: the parse_strings decision (postponed evaluation, explicit flag, typing/typing_extensions Literal, 10 positions of the string) on the real get_expression. (3) shapes: every node type of expressions._node_map as parent x child position x every node type as child (depth 2), element counts, operator indices and optional-part masks chosen by the solver; str(expr) is parsed by CPython and compared with the tree it was built from; flat/non-flat pieces concatenate to str(expr); every name is an ExprName element in order. Arbitrary nesting depth (the quantifier of the property) is NOT covered: depth 2 only, and obligation (3) is case analysis, not value-symbolic reasoning.",
+                     note="Trusted: pysymex (validated against native ExprLambda.iterate on every valid parameter list n<=3 on each run), CrossHair/z3 as case splitter; hand-built ast nodes (only trees CPython's unparse->parse reproduces are considered). Known genuine defects excluded by narrow regions: operands rendered without parentheses, f-string conversion/format spec dropped, `from __future__ import annotations as x`. Depth > 2, statement contexts, and string contents of f-strings with quotes/braces are outside the claim.")
+
 NOT_APPLICABLE = [
     {"property_id": "C17", "reason": "static-vs-dynamic agreement needs importlib/inspect on live objects of concrete executable modules: nothing symbolic survives the import boundary, so a solver could only enumerate program texts (enumeration, not solving). See DESIGN.md §5."},
 ]
